@@ -12,6 +12,11 @@ CONSTANTS
   Shapes <- ShapesAll
   UShapes <- UShapesQuick
   Fams <- FamsAll
+  CDA <- CDAQuick
+  CDE <- CDEQuick
+  CVB <- CVBQuick
+  CPairs <- CPairsQuick
+  COps <- COpsQuick
 INIT Init
 NEXT Next
 INVARIANT Export
